@@ -7,9 +7,9 @@ import shutil
 from lib.coqterm import cbool, clist, cN, copt
 
 ID = "C39"
-QUICK_N = 2500
-THOROUGH_N = 60000
-SHARD = 250
+QUICK_N = 1200
+THOROUGH_N = 9000
+SHARD = 125
 TRANSLATORS = ["save_hooks"]
 COQ_PRELUDE = "From MV Require Import Model.SavePrelude Model.Save.\nOpen Scope N_scope.\n"
 RULE = ("1-5 concurrent flows (HTTP, HTTP+WebSocket, TCP, UDP, DNS; marked or not). 70% structured: per-flow lifecycle "
@@ -18,7 +18,8 @@ RULE = ("1-5 concurrent flows (HTTP, HTTP+WebSocket, TCP, UDP, DNS; marked or no
         "option changes (filter trees over ~http ~tcp ~udp ~dns ~websocket ~marked ~e ~s ~q with ! & |, switch file, unset, "
         "re-set, invalid filter, a directory as path, empty strings) and shutdown (done), unset or nothing at the end. 30% "
         "adversarial: hooks of the flow's type in arbitrary order (completion before start, repeated completions), option "
-        "changes and done anywhere. Non-trivial = at least one record was written and at least two flows took part; "
+        "changes and done anywhere. Thorough adds every sequence of 4 events over 7 (request/response of an HTTP flow, "
+        "start/error of a TCP flow, unset, re-set in append mode, filter change) between setting the file and shutdown. Non-trivial = at least one record was written and at least two flows took part; "
         "distinct by canonical JSON.")
 TRUSTED = ["Coq 8.16.1 kernel (coqc), vm_compute for case evaluation",
            "translator harness/translators/save_hooks.py (fail-closed ast walk of class Save; exact shape check of configure, "
@@ -52,12 +53,29 @@ BAD = 2  # path index of the directory
 
 # ------------------------------------------------------------------ generator
 def gen_filter(rng, depth=2):
+    """mostly or-of-ands-of-literals (needs no parentheses: pyparsing's infix grammar takes ~0.1-0.4 s per
+    parenthesised group); 8% arbitrary trees"""
+    if rng.chance(0.08):
+        return gen_tree(rng, depth)
+    lit = lambda: [rng.choice(list(ATOMS))] if rng.chance(0.7) else ["not", [rng.choice(list(ATOMS))]]
+    def conj():
+        t = lit()
+        for _ in range(rng.weighted([(55, 0), (35, 1), (10, 2)])):
+            t = ["and", t, lit()]
+        return t
+    t = conj()
+    for _ in range(rng.weighted([(60, 0), (30, 1), (10, 2)])):
+        t = ["or", t, conj()]
+    return t
+
+
+def gen_tree(rng, depth):
     r = rng.random()
     if depth == 0 or r < 0.45:
         return [rng.choice(list(ATOMS))]
     if r < 0.65:
-        return ["not", gen_filter(rng, depth - 1)]
-    return [rng.choice(["and", "or"]), gen_filter(rng, depth - 1), gen_filter(rng, depth - 1)]
+        return ["not", gen_tree(rng, depth - 1)]
+    return [rng.choice(["and", "or"]), gen_tree(rng, depth - 1), gen_tree(rng, depth - 1)]
 
 
 def gen_cfg(rng, adversarial):
@@ -145,18 +163,38 @@ def gen_one(rng):
 
 
 def gen(rng, n, tier):
-    return [gen_one(rng) for _ in range(n)]
+    out = []
+    if tier == "thorough":
+        # every sequence of 4 events over 7 (two flows, unset / re-set in append mode / filter change), between
+        # setting the file and shutdown
+        flows = [{"k": "http", "ws": False, "m": False}, {"k": "tcp", "ws": False, "m": True}]
+        alpha = [["hook", "request", 0], ["hook", "response", 0], ["hook", "tcp_start", 1], ["hook", "tcp_error", 1],
+                 ["cfg", {"file": None}], ["cfg", {"file": [True, 0]}], ["cfg", {"filter": ["tcp"]}]]
+
+        def rec(prefix, depth):
+            if depth == 0:
+                yield prefix
+            else:
+                for a in alpha:
+                    yield from rec(prefix + [a], depth - 1)
+        for seq in rec([], 4):
+            out.append({"flows": flows, "evs": [["cfg", {"file": [False, 0]}]] + seq + [["done"]]})
+    return out + [gen_one(rng) for _ in range(n)]
 
 
 # ------------------------------------------------------------------ implementation
-def filter_str(t):
-    if t[0] == "not":
-        return "!( " + filter_str(t[1]) + " )"
-    if t[0] == "and":
-        return "( " + filter_str(t[1]) + " & " + filter_str(t[2]) + " )"
+def filter_str(t, ctx=1):
+    """mitmproxy filter text with the fewest parentheses (precedence ! > & > |); spaces inside parentheses
+    because the grammar does not accept an atom directly followed by a closing parenthesis"""
     if t[0] == "or":
-        return "( " + filter_str(t[1]) + " | " + filter_str(t[2]) + " )"
-    return "~" + t[0]
+        s, p = filter_str(t[1], 1) + " | " + filter_str(t[2], 1), 1
+    elif t[0] == "and":
+        s, p = filter_str(t[1], 2) + " & " + filter_str(t[2], 2), 2
+    elif t[0] == "not":
+        s, p = "!" + filter_str(t[1], 4), 3
+    else:
+        s, p = "~" + t[0], 4
+    return s if p >= ctx else "( " + s + " )"
 
 
 def setup_impl():
@@ -168,6 +206,9 @@ def setup_impl():
     from mitmproxy.test import taddons, tflow, tutils  # noqa
     WORK = os.path.join(os.path.dirname(os.path.dirname(os.path.dirname(os.path.abspath(__file__)))), ".work", "C39",
                         f"files-{os.getpid()}")
+
+
+_PARSED = {}  # filter string -> parsed filter, for evaluating the oracle's match observations only
 
 
 class _ErrLog(logging.Handler):
@@ -233,7 +274,9 @@ def run_impl(case):
                     f = flows[ev[2]]
                     env_pre(f, case["flows"][ev[2]]["k"], ev[1])
                 flt = tctx.options.save_stream_filter
-                pf = flowfilter.parse(flt) if flt else None
+                if flt and flt not in _PARSED:
+                    _PARSED[flt] = flowfilter.parse(flt)
+                pf = _PARSED[flt] if flt else None
                 pm = [bool(flowfilter.match(pf, f)) for f in flows]
                 if ev[0] == "hook":
                     getattr(sa, ev[1])(flows[ev[2]])
